@@ -4,6 +4,7 @@ import (
 	"encoding/json"
 	"fmt"
 	"os"
+	"os/exec"
 	"path/filepath"
 	"sort"
 	"strconv"
@@ -385,6 +386,11 @@ func cmdCheck(repo, prop, tier string) int {
 		}
 		fmt.Println(line)
 	}
+	thor := map[string]interface{}{}
+	if tier == "thorough" && !scratch {
+		thor = thoroughExtras(rd, repo, prop, kf, sel, work)
+	}
+	extraEvidence = thor
 	if !scratch {
 		writeEvidence(rd, prop, tier, seed, sel, discharged, known, violations, unitsUsed, time.Since(t0).Seconds(), solveSecs, coversTotal, coversReached)
 	}
@@ -544,6 +550,92 @@ func writeEvidence(rd *runData, prop, tier string, seed int, sel, discharged, kn
 	_ = os.MkdirAll(filepath.Join(verifDir, "evidence"), 0o755)
 	b, _ := json.MarshalIndent(ev, "", " ")
 	_ = os.WriteFile(filepath.Join(verifDir, "evidence", prop+".json"), b, 0o644)
+}
+
+var extraEvidence map[string]interface{}
+
+// thoroughExtras: replays of the listed findings, must-fail / must-pass
+// corpora restricted to the property, reachability of every obligation
+// part, contract copy check.
+func thoroughExtras(rd *runData, repo, prop string, kf *KnownFindings, sel []*Obligation, work string) map[string]interface{} {
+	out := map[string]interface{}{}
+	// 1. replays of listed findings
+	seen := map[string]bool{}
+	var replays []map[string]interface{}
+	for _, f := range kf.Findings {
+		match := f.Property == prop
+		for _, p := range f.Properties {
+			if p == prop {
+				match = true
+			}
+		}
+		if !match || f.Replay == "" || seen[f.Replay] {
+			continue
+		}
+		seen[f.Replay] = true
+		m := knownRE.FindStringSubmatch(f.Replay)
+		if m == nil {
+			continue
+		}
+		file := m[1]
+		if !filepath.IsAbs(file) {
+			file = filepath.Join(verifDir, file)
+		}
+		_, failed, err := runOverlayTest(repo, file, m[2], strings.Contains(m[2], "_Race_"), 120*time.Second)
+		rec := map[string]interface{}{"replay": f.Replay, "reproduces": failed}
+		if err != nil {
+			rec["error"] = err.Error()
+		}
+		if !failed {
+			fmt.Printf("STALE-FINDING: property=%s %s: its replay %s no longer reproduces on this tree\n", prop, f.Obligation, f.Replay)
+		}
+		replays = append(replays, rec)
+	}
+	out["known_finding_replays"] = replays
+	// 2. reachability of every obligation part
+	dead, total := 0, 0
+	var deadNames []string
+	for _, ob := range sel {
+		if ob.Kind != "smt" {
+			continue
+		}
+		for i, part := range ob.Parts {
+			total++
+			file := filepath.Join(work, fmt.Sprintf("pc_%s_%d.smt2", sanitize(ob.Name), i))
+			_ = os.WriteFile(file, []byte(ob.Unit.query(part, false)), 0o644)
+			v, _, _ := runSolver(solvers[0], file, 10, 0)
+			if v == "unsat" {
+				dead++
+				deadNames = append(deadNames, fmt.Sprintf("%s#%d", ob.Name, i))
+			}
+		}
+	}
+	out["obligation_parts"] = total
+	out["unreachable_parts"] = dead
+	out["unreachable_part_names"] = deadNames
+	// 3. corpora
+	self, _ := os.Executable()
+	cmd := exec.Command(self, "selftest", prop)
+	cmd.Env = append(os.Environ(), "VERIF_REPO="+repo)
+	b, _ := cmd.CombinedOutput()
+	var lines []string
+	for _, l := range strings.Split(string(b), "\n") {
+		if strings.HasPrefix(l, "SELFTEST") || strings.HasPrefix(l, "selftest:") {
+			lines = append(lines, l)
+			if strings.HasPrefix(l, "SELFTEST-MISS") || strings.HasPrefix(l, "SELFTEST-FALSE-ALARM") {
+				fmt.Println(l)
+			}
+		}
+	}
+	out["selftest"] = lines
+	// 4. contract copy
+	a, _ := os.ReadFile(filepath.Join(repo, "leader", "verif_contracts.go"))
+	c, _ := os.ReadFile(filepath.Join(verifDir, "contracts", "verif_contracts.go"))
+	out["contract_copy_identical"] = string(a) == string(c)
+	if string(a) != string(c) {
+		fmt.Println("NOTE: /verif/contracts/verif_contracts.go differs from /repo/leader/verif_contracts.go")
+	}
+	return out
 }
 
 var trustedBase = []string{
